@@ -53,7 +53,7 @@ type qsTrial struct {
 	Fan       int    `json:"fan"`
 	Length    int    `json:"length"`
 	Elem      string `json:"elem,omitempty"` // pipelines: element type of the queues (concelem.go); every 5th position of the stream is the zero value, a quarter of the trials stream only zero values
-	ProdPace  string `json:"producer_pace"` // fast | slow | bursty
+	ProdPace  string `json:"producer_pace"`  // fast | slow | bursty
 	ConsPace  string `json:"consumer_pace"`
 }
 
